@@ -159,18 +159,29 @@ def run(ctx: Ctx):
                 return "?"
             return "min" if (a is not None and b is not None) else "?"
         return "?"
-    effs = [n for n in own_nodes(inner) if isinstance(n, ast.Assign) and norm(n.targets[0]) == "effective_end"]
     own = [n for n in own_nodes(inner) if isinstance(n, ast.Assign) and isinstance(n.value, ast.Call) and "'end'" in norm(n.value).replace('"', "'")
            and isinstance(n.targets[0], ast.Name)]
     cparam = inner.params[1] if len(inner.params) > 1 else None
-    if len(effs) != 1 or not own or cparam is None:
-        raise AnchorMissing("propagate_end_to_children: effective_end / own end / container parameter not found")
+    # what the walk hands down to the children: the second argument of the recursive call (a local name is followed to its
+    # single definition)
+    recs = [c for c in own_nodes(inner) if isinstance(c, ast.Call) and norm(c.func) == inner.name and len(c.args) == 2]
+    if not recs or not own or cparam is None:
+        raise AnchorMissing("propagate_end_to_children: recursive call / own end / container parameter not found")
+    handed = recs[0].args[1]
+    effs = []
+    if isinstance(handed, ast.Name) and handed.id not in (own[0].targets[0].id, cparam):
+        effs = [n for n in own_nodes(inner) if isinstance(n, ast.Assign) and norm(n.targets[0]) == handed.id]
+        if len(effs) != 1:
+            raise AnchorMissing(f"propagate_end_to_children: {len(effs)} definitions of {handed.id}")
+    else:
+        effs = [ast.Assign(targets=[ast.Name(id="<handed down>", ctx=ast.Store())], value=handed, lineno=recs[0].lineno, col_offset=0)]
+        effs[0]._synthetic = True
     ownv = own[0].targets[0].id
     want = {("T", "C"): ("T", "min"), (None, "C"): ("C",), ("T", None): ("T",)}
     got = {k: sel(effs[0].value, {ownv: k[0], cparam: k[1]}) for k in want}
     if "?" in got.values():
         from ..model import Inconclusive
-        raise Inconclusive(f"propagate_end_to_children: {norm(effs[0])} is not a selection between the task's own end and the container's")
+        raise Inconclusive(f"propagate_end_to_children: {norm(effs[0].value)} is not a selection between the task's own end and the container's")
     ok = all(got[k] in want[k] for k in want)
     # the walk starts at every root, whether or not the root has an end of its own
     from .common import enclosing_ifs as _encl
@@ -184,10 +195,10 @@ def run(ctx: Ctx):
                key="R08.8|_propagateContainerEndDates|start at every root")
     if not starts:
         raise AnchorMissing("_propagateContainerEndDates: top-level propagate call not found")
-    ctx.ob("R08.8", f"{inner.qual}: {norm(effs[0])[:70]}", (inner, effs[0]), ok,
+    ctx.ob("R08.8", f"{inner.qual}: children receive {norm(effs[0].value)[:60]}", (inner, recs[0] if getattr(effs[0], "_synthetic", False) else effs[0]), ok,
            "a task's own end wins over the end inherited from its container; without one the container's applies" if ok else
-           f"selection table {got}: a nested container's own (earlier) end is overridden by the outer container's, so its tasks end after "
-           "their deadline",
+           f"selection table (own end, container end) -> handed down: {got}: either a nested container's own (earlier) end is overridden by the "
+           "outer container's, or a container without an end of its own hands down nothing and the tasks below it lose the outer deadline",
            key="R08.8|propagate_end_to_children|effective end")
     # ---------------------------------------------------------------- R08.9 calendar answers are not remembered under a lossy key
     from .c02 import memo_rule
